@@ -162,6 +162,100 @@ theorem evalSeq_agree_closed (good : Name → Prop) : ∀ {defs : List (Name × 
       rw [hc1, hc2] at this
       simp at this; simp [this]
 
+/-- success of a run that skips some definitions whose names are already bound -/
+theorem evalSeq_ok_filter (keep : Name → Bool) : ∀ {defs : List (Name × Fn)} {e1 e1' e2 : Env},
+    evalSeq defs e1 = .ok e1' → (∀ a, (∃ v, e1.lookup a = some v) → ∃ w, e2.lookup a = some w) →
+    (∀ kf ∈ defs, keep kf.1 = false → ∃ w, e2.lookup kf.1 = some w) →
+    ∃ e2', evalSeq (defs.filter fun kf => keep kf.1) e2 = .ok e2' := by
+  intro defs; induction defs with
+  | nil => intro e1 e1' e2 _ _ _; exact ⟨e2, rfl⟩
+  | cons kf rest ih =>
+    intro e1 e1' e2 h hk hdrop
+    obtain ⟨k, f⟩ := kf
+    obtain ⟨v, hc, hr⟩ := evalSeq_cons_ok h
+    cases hkeep : keep k with
+    | false =>
+      have hfil : ((k, f) :: rest).filter (fun kf => keep kf.1) = rest.filter (fun kf => keep kf.1) := by
+        simp [List.filter_cons, hkeep]
+      rw [hfil]
+      refine ih hr ?_ (fun kf hkf hkp => hdrop kf (List.mem_cons_of_mem _ hkf) hkp)
+      intro a ⟨x, hx⟩
+      rw [Env.lookup_set] at hx
+      cases hak : a == k with
+      | true =>
+        have : a = k := by simpa using hak
+        subst this
+        exact hdrop (a, f) List.mem_cons_self hkeep
+      | false => simp [hak] at hx; exact hk a ⟨x, hx⟩
+    | true =>
+      have hfil : ((k, f) :: rest).filter (fun kf => keep kf.1) = (k, f) :: rest.filter (fun kf => keep kf.1) := by
+        simp [List.filter_cons, hkeep]
+      rw [hfil]
+      obtain ⟨w, hw⟩ := Fn.calc_some_ok (f := f) (e := e2) (fun a ha => hk a (Fn.calc_ok_some hc a ha))
+      obtain ⟨e2', he2⟩ := ih (e2 := e2.set k w) hr (by
+        intro a ⟨x, hx⟩
+        rw [Env.lookup_set] at hx ⊢
+        cases hak : a == k with
+        | true => exact ⟨w, by simp⟩
+        | false => simp [hak] at hx ⊢; exact hk a ⟨x, hx⟩) (by
+        intro kf hkf hkp
+        obtain ⟨x, hx⟩ := hdrop kf (List.mem_cons_of_mem _ hkf) hkp
+        rw [Env.lookup_set]
+        cases hak : kf.1 == k with
+        | true => exact ⟨w, by simp⟩
+        | false => exact ⟨x, by simp [hx]⟩)
+      exact ⟨e2', by simp [evalSeq, hw, he2, bind, Except.bind]⟩
+
+/-- agreement on good names when the second run skips definitions that are not good -/
+theorem evalSeq_agree_closed_filter (good : Name → Prop) (keep : Name → Bool) :
+    ∀ {defs : List (Name × Fn)} {e1 e2 e1' e2' : Env},
+    evalSeq defs e1 = .ok e1' → evalSeq (defs.filter fun kf => keep kf.1) e2 = .ok e2' →
+    (∀ kf ∈ defs, good kf.1 → keep kf.1 = true ∧ ∀ a ∈ kf.2.args, good a) →
+    (∀ a, good a → e1.lookup a = e2.lookup a) →
+    ∀ a, good a → e1'.lookup a = e2'.lookup a := by
+  intro defs; induction defs with
+  | nil =>
+    intro e1 e2 e1' e2' h1 h2 _ hag
+    simp [evalSeq, pure, Except.pure] at h1 h2; subst h1; subst h2; exact hag
+  | cons kf rest ih =>
+    intro e1 e2 e1' e2' h1 h2 hcl hag
+    obtain ⟨k, f⟩ := kf
+    obtain ⟨v1, hc1, hr1⟩ := evalSeq_cons_ok h1
+    have hcl' : ∀ kf ∈ rest, good kf.1 → keep kf.1 = true ∧ ∀ a ∈ kf.2.args, good a :=
+      fun kf hkf => hcl kf (List.mem_cons_of_mem _ hkf)
+    cases hkeep : keep k with
+    | false =>
+      have hfil : ((k, f) :: rest).filter (fun kf => keep kf.1) = rest.filter (fun kf => keep kf.1) := by
+        simp [List.filter_cons, hkeep]
+      rw [hfil] at h2
+      refine ih hr1 h2 hcl' ?_
+      intro a ha
+      rw [Env.lookup_set]
+      cases hak : a == k with
+      | false => simp; exact hag a ha
+      | true =>
+        have : a = k := by simpa using hak
+        subst this
+        have := (hcl (a, f) List.mem_cons_self ha).1
+        rw [hkeep] at this; cases this
+    | true =>
+      have hfil : ((k, f) :: rest).filter (fun kf => keep kf.1) = (k, f) :: rest.filter (fun kf => keep kf.1) := by
+        simp [List.filter_cons, hkeep]
+      rw [hfil] at h2
+      obtain ⟨v2, hc2, hr2⟩ := evalSeq_cons_ok h2
+      refine ih hr1 hr2 hcl' ?_
+      intro a ha
+      rw [Env.lookup_set, Env.lookup_set]
+      cases hak : a == k with
+      | false => simp; exact hag a ha
+      | true =>
+        have : a = k := by simpa using hak
+        subst this
+        have hargs := (hcl (a, f) List.mem_cons_self ha).2
+        have : f.calc e1 = f.calc e2 := Fn.calc_congr (fun b hb => hag b (hargs b hb))
+        rw [hc1, hc2] at this
+        simp at this; simp [this]
+
 /-- One pass over all definitions vs. a pass over the non-static ones in an environment that already
     holds the final values of the static ones. -/
 theorem evalSeq_agree_sub (stat : Name → Bool) : ∀ {defs : List (Name × Fn)} {e1 e2 e1' : Env},
